@@ -123,6 +123,13 @@ pub fn prepare<'a>(id: &str, liveness: bool, scn: &'a Scenario, h: &'a History, 
         out.inconclusive = Some("slow-op>=2.5s".into());
         return None;
     }
+    // a store without a build-time reducer, middleware or permanent observer handles actions
+    // without a single callback: nothing in the log says whether an action was taken (see
+    // `Scenario::observable`); such a scenario is not judged
+    if (0..scn.stores.len()).any(|s| !scn.observable(s)) {
+        out.class("skipped-pipeline-not-observable");
+        return None;
+    }
     let d = Digest::new(scn, h);
     let p = pipe::check(&d);
     let _ = id;
